@@ -169,6 +169,15 @@ for i = 1, 4 do local idx, v, ok = channel.select({"|<-", a, h("ra" .. i)}, {"|<
 a:close() emit("closed", a:receive()) emit("closed-select", channel.select({"|<-", a, h("rc")}, {"default"}))
 return %d`, 1+p%9, p%7)
 	}, true},
+	{"spawned-coroutine", 0, func(p int) string {
+		return fmt.Sprintf("local mk = spawn or function(f) return coroutine.wrap(f) end\nlocal co = mk(function() local i = 0 while true do i = i + 1 emit('s', i) if i %% %d == 0 then coroutine.yield(i) end end end)\nwhile true do emit('main', co()) end", 2+p%4)
+	}, false},
+	{"terminating-spawned", 0, func(p int) string {
+		return fmt.Sprintf("local mk = spawn or function(f) return coroutine.wrap(f) end\nlocal co = mk(function(a) local b = coroutine.yield(a + 1) emit('in', b) local inner = mk(function(x) return x * 2 end) return inner(b) end)\nemit(co(%d)) emit(co(5))\nlocal g = mk(function() for i = 1, 4 do coroutine.yield(i) end end)\nfor v in g do emit('g', v) end\nreturn 2", p%9)
+	}, true},
+	{"cancel-inside-spawned-coroutine", 1, func(p int) string {
+		return fmt.Sprintf("local mk = spawn or function(f) return coroutine.wrap(f) end\nlocal co = mk(function()\n  local i = 0\n  while true do\n    i = i + 1\n    emit('co', i)\n    if i == %d then cancel() end\n    if i %% 3 == 0 then coroutine.yield(i) end\n  end\nend)\nwhile true do emit('main', co()) end", 1+p%9)
+	}, false},
 	{"cancel-inside-coroutine", 1, func(p int) string {
 		return fmt.Sprintf("local co = coroutine.wrap(function()\n  local i = 0\n  while true do\n    i = i + 1\n    emit('co', i)\n    if i == %d then cancel() end\n    if i %% 3 == 0 then coroutine.yield(i) end\n  end\nend)\nwhile true do emit('main', co()) end", 1+p%9)
 	}, false},
@@ -176,6 +185,11 @@ return %d`, 1+p%9, p%7)
 		return fmt.Sprintf("local co = coroutine.create(function()\n  local i = 0\n  while true do\n    pcall(function() while true do i = i + 1 emit('co', i) if i == %d then cancel() end end end)\n    emit('swallowed')\n  end\nend)\nwhile true do emit('main', coroutine.resume(co)) end", 2+p%7)
 	}, false},
 }
+
+const spawnPrelude = `spawn = coroutine.wrap(function(f) while true do f = coroutine.yield(coroutine.wrap(f)) end end)`
+
+// spawnOK: programs that create their coroutines through the global spawn when it exists
+var spawnOK = map[string]bool{"spawned-coroutine": true, "terminating-spawned": true, "cancel-inside-spawned-coroutine": true}
 
 // bareOK: programs that use nothing but the language and emit, so that they run
 // on a state created with SkipOpenLibs (whose first call is then the script)
@@ -210,7 +224,7 @@ func runOnce(src string, k int, useCtx bool, opt ...string) *runResult {
 	mode, probe := "", false
 	for _, o := range opt {
 		switch o {
-		case "thread", "bare", "reattach":
+		case "thread", "bare", "reattach", "spawn-none", "spawn-old":
 			mode = o
 		case "probe":
 			probe = true
@@ -226,6 +240,18 @@ func runOnce(src string, k int, useCtx bool, opt ...string) *runResult {
 	}
 	var ctx *cancelAt
 	run := L // the state that runs the script
+	if strings.HasPrefix(mode, "spawn-") {
+		// a coroutine that predates the context (made with no context, or under an
+		// earlier one that is still live) hands out coroutines it creates on request:
+		// those are created after the context was attached and obey it
+		if mode == "spawn-old" && useCtx {
+			L.SetContext(context.Background())
+		}
+		if err := L.DoString(spawnPrelude); err != nil {
+			res.failed, res.errText = true, "prelude: "+err.Error()
+			return res
+		}
+	}
 	if useCtx {
 		ctx = newCancelAt(k, false)
 		if mode == "thread" {
@@ -419,6 +445,9 @@ func runProgram(c *fw.Ctx, pi int, p1 int, onlyK int, count bool, mode string) {
 	if count && mode == "thread" {
 		c.Count("programs_with_context_on_thread_only", 1)
 	}
+	if count && strings.HasPrefix(mode, "spawn-") {
+		c.Count("programs_whose_coroutines_are_created_by_a_coroutine_that_predates_the_context", 1)
+	}
 	if count && mode == "reattach" {
 		c.Count("programs_with_a_context_replacing_an_ended_one", 1)
 	}
@@ -587,6 +616,10 @@ func run(c *fw.Ctx) {
 			runProgram(c, pi, p1, 0, true, "")
 			runProgram(c, pi, p1, 0, true, "thread")
 			runProgram(c, pi, p1, 0, true, "reattach")
+			if spawnOK[programs[pi].name] {
+				runProgram(c, pi, p1, 0, true, "spawn-none")
+				runProgram(c, pi, p1, 0, true, "spawn-old")
+			}
 			if bareOK[programs[pi].name] {
 				runProgram(c, pi, p1, 0, true, "bare")
 			}
